@@ -87,7 +87,8 @@ REQUIRED_CLAUSES = ["args-unchanged", "module-tables-unchanged",
                     "interleaved-calls==sequential", "int-form==float-form",
                     "args-unchanged-during-call",
                     "independent-of-decimal-context",
-                    "explicit-defaults==omitted", "angle-form==number-form"]
+                    "explicit-defaults==omitted", "angle-form==number-form",
+                    "uneven-tables->ValueError"]
 
 
 # ------------------------------------------------------------------ discovery
@@ -1968,6 +1969,48 @@ def case_out_of_range(mon):
             A(0), A(90), A(40), A(10), A(41), A(10), A(42), A(10),
             A(-0.5667), 56.0, A(100)),
     }
+    # tables of uneven length (each argument is a well-typed list of Angles:
+    # what is wrong is how they relate): the documented refusal is ValueError
+    base = [[A(10.0 + 0.8 * i) for i in range(5)],
+            [A(5.0 + 0.2 * i) for i in range(5)],
+            [A(11.5 + 0.1 * i) for i in range(5)],
+            [A(4.0 + 0.05 * i) for i in range(5)]]
+    for k in range(4):
+        for how in ("shorter", "longer"):
+            tabs = [list(t) for t in base]
+            if how == "shorter":
+                tabs[k] = tabs[k][:-1]
+            else:
+                tabs[k] = tabs[k] + [A(20.0)]
+            mon.evals += 1
+            name = "planetary_conjunction(table %d one entry %s)" % (k, how)
+            mon.cls("out-of-range-probe", ("oor", name), [name])
+            try:
+                r = C.planetary_conjunction(*tabs)
+            except ValueError:
+                mon.ok("uneven-tables->ValueError")
+                continue
+            except Exception as ex:
+                mon.dev("uneven-tables->ValueError",
+                        {"probe": name, "raised": repr(ex)})
+                continue
+            mon.dev("uneven-tables->ValueError",
+                    {"probe": name, "returned": repr(r)[:200]})
+    for how, al, de in (("4 declinations", base[0], base[1][:-1]),
+                        ("6 declinations", base[0], base[1] + [A(7.0)])):
+        mon.evals += 1
+        name = "planet_star_conjunction(5 right ascensions, %s)" % how
+        try:
+            r = C.planet_star_conjunction(al, de, A(11.7), A(4.0))
+        except ValueError:
+            mon.ok("uneven-tables->ValueError")
+            continue
+        except Exception as ex:
+            mon.dev("uneven-tables->ValueError",
+                    {"probe": name, "raised": repr(ex)})
+            continue
+        mon.dev("uneven-tables->ValueError",
+                {"probe": name, "returned": repr(r)[:200]})
     for name, fn in probes.items():
         mon.evals += 1
         mon.cls("out-of-range-probe", ("oor", name), [name])
